@@ -617,7 +617,7 @@ func runC17(c *Ctx) {
 		load := atomicOp("Load") // reading a flag is not a shutdown step
 		var effects []ssa.Instruction
 		ir.Instrs(stop, func(in ssa.Instruction) {
-			if _, ok := in.(*ssa.Call); ok && !add(in) && !load(in) {
+			if _, ok := in.(*ssa.Call); ok && !add(in) && !load(in) && !isLogCall(in) {
 				effects = append(effects, in)
 			}
 		})
